@@ -139,6 +139,15 @@ func genHistory(t *rapid.T) history {
 		if _, has := spec.Responses[op]; has && op != "GetDevices" && rapid.IntRange(0, 2).Draw(t, "reply.any") == 0 {
 			st.Reply, st.Raw = 4, gen.Reply(t, cs.Call)
 		}
+		if l, has := spec.Responses[op]; has && op != "GetDevices" && len(serials) >= 2 && rapid.IntRange(0, 7).Draw(t, "reply.from.another") == 0 {
+			// the answer comes from ANOTHER controller the client knows (swapped addresses, a NAT that forwards to the wrong board):
+			// a well-formed reply with the serial number of a controller that was, or will be, addressed in this history
+			if other := serials[rapid.IntRange(0, len(serials)-1).Draw(t, "reply.other")]; other != cs.Call.Serial {
+				b := make([]byte, 64)
+				spec.Header(b, 0x17, l.Code, other)
+				st.Reply, st.Raw = 4, b
+			}
+		}
 		h.Steps = append(h.Steps, st)
 	}
 	uniq := map[uint32]bool{}
